@@ -19,7 +19,6 @@ import (
 	"github.com/obolnetwork/charon/tbls"
 	"github.com/obolnetwork/charon/tbls/tblsconv"
 	"github.com/obolnetwork/charon/testutil"
-	"github.com/obolnetwork/charon/testutil/beaconmock"
 
 	"verifharness/drv"
 )
@@ -44,12 +43,12 @@ func newComponent(r *run) component {
 		t := max(drv.Num(r.cfg["t"]), 1)
 		c := &parsigC{db: parsigdb.NewMemDB(t, stubDeadliner{}, parsigdb.NewMemDBMetadata(12, time.Now())), w: map[string]psW{}}
 		for range 2 {
-			c.db.SubscribeInternal(func(_ context.Context, _ core.Duty, set core.ParSignedDataSet) error {
-				c.sub("internal", set)
+			c.db.SubscribeInternal(func(_ context.Context, d core.Duty, set core.ParSignedDataSet) error {
+				c.sub("internal", d.String(), set)
 				return nil
 			})
-			c.db.SubscribeThreshold(func(_ context.Context, _ core.Duty, set map[core.PubKey][]core.ParSignedData) error {
-				c.sub("threshold", set)
+			c.db.SubscribeThreshold(func(_ context.Context, d core.Duty, set map[core.PubKey][]core.ParSignedData) error {
+				c.sub("threshold", d.String(), set)
 				return nil
 			})
 		}
@@ -75,8 +74,8 @@ func newComponent(r *run) component {
 		}
 		c := &sigaggC{agg: agg, w: map[string]core.Duty{}}
 		for range 2 {
-			agg.Subscribe(func(_ context.Context, _ core.Duty, set core.SignedDataSet) error {
-				c.sub("sub", set)
+			agg.Subscribe(func(_ context.Context, d core.Duty, set core.SignedDataSet) error {
+				c.sub("sub", d.String(), set)
 				return nil
 			})
 		}
@@ -131,7 +130,7 @@ func (c *dutydbC) New(r *run, w string) any {
 	return core.UnsignedDataSet{pk: d}
 }
 
-func (c *dutydbC) Put(r *run, _, w string, _ func(string, any)) error {
+func (c *dutydbC) Put(r *run, _, w string, _ func(string, string, any)) error {
 	k := c.keys[w]
 	err := c.db.Store(r.ctx, k.duty, r.holder(w).val.(core.UnsignedDataSet))
 	if err == nil && !k.put && r.pristine(w) {
@@ -205,7 +204,7 @@ type psW struct {
 type parsigC struct {
 	db  *parsigdb.MemDB
 	w   map[string]psW
-	sub func(string, any)
+	sub func(string, string, any)
 }
 
 func (c *parsigC) New(r *run, w string) any {
@@ -228,7 +227,7 @@ func (c *parsigC) New(r *run, w string) any {
 	return core.ParSignedDataSet{k.pk: core.ParSignedData{SignedData: d, ShareIdx: widx(w)}}
 }
 
-func (c *parsigC) Put(r *run, p, w string, sub func(string, any)) error {
+func (c *parsigC) Put(r *run, p, w string, sub func(string, string, any)) error {
 	c.sub = sub
 	set := r.holder(w).val.(core.ParSignedDataSet)
 	if p == "StoreInternal" {
@@ -260,7 +259,7 @@ func (c *aggsigC) New(r *run, w string) any {
 	return core.SignedDataSet{k.pk: d}
 }
 
-func (c *aggsigC) Put(r *run, _, w string, _ func(string, any)) error {
+func (c *aggsigC) Put(r *run, _, w string, _ func(string, string, any)) error {
 	k := c.w[w]
 	ctx, cancel := context.WithTimeout(r.ctx, 10*time.Second)
 	defer cancel()
@@ -287,7 +286,7 @@ func (c *aggsigC) Get(r *run, _, of string, _ int) (any, string, bool, error) {
 type sigaggC struct {
 	agg *sigagg.Aggregator
 	w   map[string]core.Duty
-	sub func(string, any)
+	sub func(string, string, any)
 }
 
 func (c *sigaggC) New(r *run, w string) any {
@@ -320,7 +319,7 @@ func (c *sigaggC) New(r *run, w string) any {
 	return map[core.PubKey][]core.ParSignedData{testutil.RandomCorePubKey(r.t): pars}
 }
 
-func (c *sigaggC) Put(r *run, _, w string, sub func(string, any)) error {
+func (c *sigaggC) Put(r *run, _, w string, sub func(string, string, any)) error {
 	c.sub = sub
 	return c.agg.Aggregate(r.ctx, c.w[w], r.holder(w).val.(map[core.PubKey][]core.ParSignedData))
 }
